@@ -408,6 +408,116 @@ thread_local! {
     static QUIET: std::cell::Cell<bool> = const { std::cell::Cell::new(false) };
 }
 
+// ---------------------------------------------------------------------------------------------
+// CPU-time watchdog for calls into the library that take a byte buffer (termination is part of C02's statement).
+// A worker registers the input before the call; a watchdog thread samples the CPU time of the registered threads
+// (/proc/self/task/<tid>/stat, so machine load does not matter) and, when one call has consumed more than the limit,
+// saves the input as a replay file, reports the failure through the normal path and ends the process.
+
+struct Watched {
+    tid: u32,
+    /// registration counter: tells the watchdog whether it still looks at the same call
+    gen: u64,
+    bytes: Vec<u8>,
+    what: &'static str,
+}
+
+static WATCH_GEN: std::sync::atomic::AtomicU64 = std::sync::atomic::AtomicU64::new(1);
+thread_local! {
+    static OWN_TID: u32 = own_tid();
+}
+
+static WATCH: Mutex<Vec<Option<Watched>>> = Mutex::new(Vec::new());
+static WATCH_CTX: std::sync::atomic::AtomicPtr<Ctx> = std::sync::atomic::AtomicPtr::new(std::ptr::null_mut());
+
+fn own_tid() -> u32 {
+    std::fs::read_link("/proc/thread-self").ok().and_then(|p| p.file_name().and_then(|n| n.to_str().map(|s| s.to_string()))).and_then(|s| s.parse().ok()).unwrap_or(0)
+}
+
+/// utime + stime of a thread of this process in clock ticks (100 per second on Linux)
+fn thread_cpu_ticks(tid: u32) -> Option<u64> {
+    let s = std::fs::read_to_string(format!("/proc/self/task/{tid}/stat")).ok()?;
+    let rest = &s[s.rfind(')')? + 1..];
+    let f: Vec<&str> = rest.split_whitespace().collect();
+    // after the command name: state(0) ppid pgrp session tty tpgid flags minflt cminflt majflt cmajflt utime(11) stime(12)
+    Some(f.get(11)?.parse::<u64>().ok()? + f.get(12)?.parse::<u64>().ok()?)
+}
+
+pub struct CaseGuard(usize);
+
+/// register the input of the call that follows on this thread
+pub fn watch_case(bytes: &[u8], what: &'static str) -> CaseGuard {
+    if WATCH_CTX.load(Ordering::Relaxed).is_null() {
+        return CaseGuard(usize::MAX);
+    }
+    let tid = OWN_TID.with(|t| *t);
+    if tid == 0 {
+        return CaseGuard(usize::MAX);
+    }
+    let w = Watched { tid, gen: WATCH_GEN.fetch_add(1, Ordering::Relaxed), bytes: bytes.to_vec(), what };
+    let mut g = WATCH.lock().unwrap();
+    if let Some(i) = g.iter().position(|x| x.is_none()) {
+        g[i] = Some(w);
+        CaseGuard(i)
+    } else {
+        g.push(Some(w));
+        CaseGuard(g.len() - 1)
+    }
+}
+
+impl Drop for CaseGuard {
+    fn drop(&mut self) {
+        if self.0 != usize::MAX {
+            if let Ok(mut g) = WATCH.lock() {
+                if self.0 < g.len() {
+                    g[self.0] = None;
+                }
+            }
+        }
+    }
+}
+
+/// start the watchdog (once per process); `limit_s` seconds of CPU time for one call
+pub fn start_watchdog(ctx: &Ctx, limit_s: u64) {
+    WATCH_CTX.store(ctx as *const Ctx as *mut Ctx, Ordering::SeqCst);
+    std::thread::spawn(move || {
+        // (registration counter) -> CPU time of the thread when the watchdog first saw that call
+        let mut first_seen: std::collections::HashMap<u64, u64> = std::collections::HashMap::new();
+        loop {
+        std::thread::sleep(std::time::Duration::from_millis(1500));
+        let hit: Option<(Vec<u8>, &'static str, u64)> = {
+            let g = WATCH.lock().unwrap();
+            let live: std::collections::HashSet<u64> = g.iter().flatten().map(|w| w.gen).collect();
+            first_seen.retain(|k, _| live.contains(k));
+            g.iter().flatten().find_map(|w| {
+                let now = thread_cpu_ticks(w.tid)?;
+                let c0 = *first_seen.entry(w.gen).or_insert(now);
+                let used = now.saturating_sub(c0) / 100;
+                if used >= limit_s {
+                    Some((w.bytes.clone(), w.what, used))
+                } else {
+                    None
+                }
+            })
+        };
+        if let Some((bytes, what, used)) = hit {
+            let p = WATCH_CTX.load(Ordering::SeqCst);
+            if !p.is_null() {
+                // SAFETY: the context lives in main() for the whole process; this thread ends the process below
+                let ctx: &Ctx = unsafe { &*p };
+                ctx.report(Failure::new(
+                    format!("no-termination:{what}"),
+                    format!("{what} on an input of {} bytes has used {used} s of CPU time and has not returned (limit {limit_s} s; CPU time of the calling thread, not wall time)\n--- input ---\n{}", bytes.len(), String::from_utf8_lossy(&bytes[..bytes.len().min(2000)])),
+                    json!({"kind": "bytes", "input": bytes_json(&bytes)}),
+                ));
+                let code = ctx.finish();
+                std::process::exit(if code == 0 { 1 } else { code });
+            }
+        }
+        }
+    });
+}
+
 pub fn install_panic_hook() {
     let default = std::panic::take_hook();
     std::panic::set_hook(Box::new(move |info| {
